@@ -5,5 +5,5 @@ set -u
 cd /repo
 if [ -n "$(git status --porcelain --untracked-files=no)" ]; then echo "tools_mut: /repo has uncommitted changes; commit or stash first"; exit 3; fi
 sed -i "$3" "$2" && git diff --stat | tail -1
-cd /verif && ./check "$1"; echo "exit=$?"
+cd /verif && VERIF_EVIDENCE_DIR=/verif/.cache/evidence-mut ./check "$1"; echo "exit=$?"
 cd /repo && git checkout -- "$2"
